@@ -309,13 +309,13 @@ func (x *Exec) havocReachable(st *State, a Value) {
 				name, sort := x.fieldHeapName(et, i)
 				h := x.heapTerm(st, name, sort)
 				fv := x.d.fresh("hv."+stt.Field(i).Name(), x.tc.sortOf(stt.Field(i).Type()))
-				st.heaps[name] = mkIte(mkEq(a.S, "0"), h, mkStore(h, a.S, fv))
+				x.setHeap(st, name, mkIte(mkEq(a.S, "0"), h, mkStore(h, a.S, fv)))
 			}
 			return
 		}
 		name, sort := x.opaqueHeap(et)
 		h := x.heapTerm(st, name, sort)
-		st.heaps[name] = mkStore(h, a.S, x.d.fresh("hv.o", x.tc.sortOf(et)))
+		x.setHeap(st, name, mkStore(h, a.S, x.d.fresh("hv.o", x.tc.sortOf(et))))
 	case KPtr:
 		if a.B == BCell {
 			if cv, ok := st.cells[a.Cell]; ok {
@@ -366,7 +366,7 @@ func (x *Exec) havocElems(st *State, s Value, et types.Type) {
 	old := mkSelect(h, s.Rid)
 	q := fmt.Sprintf("(forall ((i!h Int)) (=> (or (< i!h %s) (>= i!h %s)) (= (select %s i!h) (select %s i!h))))", s.Off, mkAdd(s.Off, s.Len), na, old)
 	st.assume(q)
-	st.heaps[name] = mkIte(mkEq(s.Rid, "0"), h, mkStore(h, s.Rid, na))
+	x.setHeap(st, name, mkIte(mkEq(s.Rid, "0"), h, mkStore(h, s.Rid, na)))
 }
 
 // ---------------------------------------------------------------------------
@@ -407,6 +407,9 @@ func (x *Exec) applyContract(st *State, fr *Frame, c *FuncContract, key string, 
 	}
 	env2 := &SpecEnv{x: x, st: st, old: oldSt, names: env.names, pkg: env.pkg, results: res, sig: sig}
 	for _, e := range c.Ensures {
+		if strings.HasPrefix(e.Label, "bounded-") || strings.HasPrefix(e.Label, "assumed-") {
+			x.assumed[key+" clause "+e.Label+" (used at a call site; not proved in general)"] = true
+		}
 		st.assume(env2.evalBool(e.E))
 	}
 	return single(st, res...)
@@ -464,7 +467,7 @@ func (x *Exec) applyAssigns(st *State, env *SpecEnv, c *FuncContract, args []Val
 			st.ghost[a.Heap] = x.freshLike(st, old, "gh."+a.Heap)
 		case "all":
 			for _, name := range heapNames(st.heaps) {
-				st.heaps[name] = x.d.fresh("hv."+name, x.heapSorts[name])
+				x.setHeap(st, name, x.d.fresh("hv."+name, x.heapSorts[name]))
 			}
 		case "heap":
 			name := x.resolveHeapName(env, a.Heap)
@@ -474,7 +477,7 @@ func (x *Exec) applyAssigns(st *State, env *SpecEnv, c *FuncContract, args []Val
 				sort = x.heapSortByName(env, a.Heap)
 			}
 			x.heapTerm(st, name, sort)
-			st.heaps[name] = x.d.fresh("hv."+name, sort)
+			x.setHeap(st, name, x.d.fresh("hv."+name, sort))
 		case "field":
 			obj := env.eval(a.E)
 			ref, objT := x.objectOf(obj)
@@ -485,7 +488,7 @@ func (x *Exec) applyAssigns(st *State, env *SpecEnv, c *FuncContract, args []Val
 			name, sort := x.fieldHeapName(objT, idx)
 			h := x.heapTerm(st, name, sort)
 			ft := objT.Underlying().(*types.Struct).Field(idx).Type()
-			st.heaps[name] = mkStore(h, ref, x.d.fresh("hv."+a.Field, x.tc.sortOf(ft)))
+			x.setHeap(st, name, mkStore(h, ref, x.d.fresh("hv."+a.Field, x.tc.sortOf(ft))))
 		case "elems":
 			s := env.eval(a.E)
 			if s.K != KSlice {
@@ -673,7 +676,7 @@ func (x *Exec) doAppend(st *State, s, t Value, pos token.Pos) Value {
 		inPlace, moved = ip, mv
 	}
 	rid := mkIte(fits, s.Rid, fresh)
-	st.heaps[name] = mkStore(h, rid, mkIte(fits, inPlace, moved))
+	x.setHeap(st, name, mkStore(h, rid, mkIte(fits, inPlace, moved)))
 	return Value{K: KSlice, T: s.T, Rid: rid, Off: mkIte(fits, s.Off, "0"), Len: newLen, Cap: mkIte(fits, s.Cap, ncap)}
 }
 
@@ -706,7 +709,8 @@ func (x *Exec) doCopy(st *State, dst, src Value, pos token.Pos) Value {
 		st.assume(fmt.Sprintf("(forall ((j!c Int)) (= (select %s j!c) (ite (and (<= %s j!c) (< j!c %s)) (select %s (+ %s (- j!c %s))) (select %s j!c))))",
 			na, dst.Off, mkAdd(dst.Off, n), sArr, src.Off, dst.Off, dArr))
 	}
-	st.heaps[name] = mkIte(mkEq(n, "0"), h, mkStore(h, dst.Rid, na))
+	// (for n == 0 the definition of na makes it equal to the old contents)
+	x.setHeap(st, name, mkStore(h, dst.Rid, na))
 	return Value{K: KInt, T: types.Typ[types.Int], S: n}
 }
 
